@@ -123,6 +123,64 @@ fn check_state<T: Elem, C: ArrayLength + PartialEq>(
     if n != model.len() {
         return Err(format!("after {}: reverse iteration visited {} rows of {}", op, n, model.len()));
     }
+    // positional access from both ends and mixed consumption (nth / nth_back / skip / take.rev / len)
+    let rows = model.len();
+    for k in [0usize, 1, 2, rows / 2, rows.saturating_sub(1), rows, rows + 1] {
+        let a = m.iter().nth(k);
+        let e = if k < rows { Some(&model[k][..]) } else { None };
+        if a != e {
+            return Err(format!("after {}: iter().nth({}) is not row {}", op, k, k));
+        }
+        let b = m.iter().nth_back(k);
+        let e = if k < rows { Some(&model[rows - 1 - k][..]) } else { None };
+        if b != e {
+            return Err(format!("after {}: iter().nth_back({}) is not row {} from the end", op, k, k));
+        }
+        let c: Vec<&[T]> = m.iter().rev().skip(k).collect();
+        if c.len() != rows.saturating_sub(k) || c.iter().enumerate().any(|(i, r)| *r != &model[rows - 1 - k - i][..]) {
+            return Err(format!("after {}: iter().rev().skip({}) does not yield the remaining rows in reverse order", op, k));
+        }
+        let d: Vec<&[T]> = m.iter().take(k).rev().collect();
+        let kk = k.min(rows);
+        if d.len() != kk || d.iter().enumerate().any(|(i, r)| *r != &model[kk - 1 - i][..]) {
+            return Err(format!("after {}: iter().take({}).rev() does not yield the first rows in reverse order", op, k));
+        }
+    }
+    {
+        // alternate next() / next_back(): both ends meet exactly once
+        let mut it = m.iter();
+        let (mut lo, mut hi) = (0usize, rows);
+        let mut turn = false;
+        loop {
+            if it.len() != hi - lo {
+                return Err(format!("after {}: iterator reports len {} with {} rows left", op, it.len(), hi - lo));
+            }
+            let x = if turn { it.next_back() } else { it.next() };
+            match x {
+                None => {
+                    if lo != hi {
+                        return Err(format!("after {}: mixed iteration ended with rows {}..{} unvisited", op, lo, hi));
+                    }
+                    break;
+                }
+                Some(r) => {
+                    if lo >= hi {
+                        return Err(format!("after {}: mixed iteration yields more than {} rows", op, rows));
+                    }
+                    let want = if turn { hi - 1 } else { lo };
+                    if r != &model[want][..] {
+                        return Err(format!("after {}: mixed iteration yielded a row other than row {}", op, want));
+                    }
+                    if turn {
+                        hi -= 1
+                    } else {
+                        lo += 1
+                    }
+                }
+            }
+            turn = !turn;
+        }
+    }
     let mut n = 0;
     for row in m {
         if n >= model.len() || row != &model[n][..] {
